@@ -37,21 +37,21 @@ PROGRAM_OPTIONS = {
     'command': [('/bin/cat', 'cat'), ('/bin/cat -u', 'cat-u'), ('/bin/echo hi', 'echo')],
     'process_name': [(None, 'dflt'), ('%(program_name)s', 'dflt'), ('zz', 'zz'), ('%(group_name)s_x', 'gx')],
     'directory': [(None, None), ('@TMP@', '/tmp'), ('/', '/')],
-    'umask': [(None, None), ('022', 18), ('22', 18), ('077', 63), ('000', 0)],
-    'priority': [(None, 999), ('999', 999), ('1', 1), ('998', 998), ('0', 0)],
+    'umask': [(None, None), ('022', 18), ('22', 18), ('077', 63), ('000', 0), ('777', 511)],
+    'priority': [(None, 999), ('999', 999), ('1', 1), ('998', 998), ('0', 0), ('-1', -1), ('2147483647', 2147483647)],
     'autostart': [(None, True), ('true', True), ('false', False)],
     'autorestart': [(None, 'u'), ('unexpected', 'u'), ('true', 't'), ('false', 'f')],
-    'startsecs': [(None, 1), ('1', 1), ('0', 0), ('5', 5)],
-    'startretries': [(None, 3), ('3', 3), ('0', 0), ('10', 10)],
-    'stopsignal': [(None, 15), ('TERM', 15), ('15', 15), ('INT', 2), ('KILL', 9), ('USR1', 10)],
+    'startsecs': [(None, 1), ('1', 1), ('0', 0), ('5', 5), ('86400', 86400)],
+    'startretries': [(None, 3), ('3', 3), ('0', 0), ('10', 10), ('1000000', 1000000)],
+    'stopsignal': [(None, 15), ('TERM', 15), ('15', 15), ('INT', 2), ('KILL', 9), ('USR1', 10), ('1', 1), ('64', 64), ('31', 31)],
     'stopwaitsecs': [(None, 10), ('10', 10), ('1', 1), ('30', 30), ('0', 0)],
     'stopasgroup': [(None, False), ('false', False), ('true', True)],
     'killasgroup': [(None, False), ('false', False), ('true', True)],
-    'exitcodes': [(None, '0'), ('0', '0'), ('0,2', '0,2'), ('1', '1')],
+    'exitcodes': [(None, '0'), ('0', '0'), ('0,2', '0,2'), ('1', '1'), ('0,255', '0,255'), ('255', '255')],
     'redirect_stderr': [(None, False), ('false', False), ('true', True)],
     'user': [(None, None), ('nobody', 65534), ('daemon', 1), ('1', 1)],
     'stdout_logfile': [(None, 'AUTO'), ('AUTO', 'AUTO'), ('NONE', None), ('@TMP@/c15_a.log', 'a'), ('@TMP@/c15_b.log', 'b')],
-    'stdout_logfile_maxbytes': [(None, 50), ('50MB', 50), ('1MB', 1), ('0', 0)],
+    'stdout_logfile_maxbytes': [(None, 50), ('50MB', 50), ('1MB', 1), ('0', 0), ('2GB', 2048)],
     'stdout_logfile_backups': [(None, 10), ('10', 10), ('0', 0), ('3', 3)],
     'stdout_capture_maxbytes': [(None, 0), ('0', 0), ('1KB', 1024), ('1024', 1024), ('7', 7)],
     'stdout_events_enabled': [(None, False), ('false', False), ('true', True)],
@@ -68,13 +68,13 @@ PROGRAM_OPTIONS = {
 }
 # options that need a process_name with %(process_num)d
 MULTI_OPTIONS = {
-    'numprocs': [(None, 1), ('1', 1), ('2', 2), ('3', 3)],
+    'numprocs': [(None, 1), ('1', 1), ('2', 2), ('3', 3), ('40', 40)],
     'numprocs_start': [(None, 0), ('0', 0), ('1', 1), ('5', 5)],
 }
 LOGFILE_OPTIONS = ('stdout_logfile', 'stderr_logfile')
 
 POOL_OPTIONS = {
-    'buffer_size': [(None, 10), ('10', 10), ('20', 20), ('1', 1)],
+    'buffer_size': [(None, 10), ('10', 10), ('20', 20), ('1', 1), ('1000000', 1000000)],
     'events': [('TICK_5', ('TICK_5',)), ('TICK_5,TICK_60', ('TICK_5', 'TICK_60')), ('TICK_60,TICK_5', ('TICK_5', 'TICK_60')),
                ('PROCESS_STATE', ('PROCESS_STATE',)), ('tick_5', ('TICK_5',)),
                ('PROCESS_STATE,PROCESS_STATE_RUNNING', ('PROCESS_STATE', 'PROCESS_STATE_RUNNING')),
@@ -90,7 +90,7 @@ FCGI_OPTIONS = {
                ('tcp://localhost:@P3@', 't2'), ('tcp://127.0.0.1:@P2@', 't3')],
     'socket_owner': [(None, None), ('nobody', 'n'), ('daemon:daemon', 'd')],
     'socket_mode': [(None, 0o700), ('0700', 0o700), ('0777', 0o777), ('0600', 0o600), ('0000', 0), ('0', 0)],
-    'socket_backlog': [(None, None), ('5', 5), ('10', 10)],
+    'socket_backlog': [(None, None), ('5', 5), ('10', 10), ('1', 1), ('65535', 65535)],
 }
 GROUP_OPTIONS = {
     'priority': [(None, 999), ('999', 999), ('5', 5), ('0', 0)],
@@ -145,7 +145,13 @@ def single_option_cases(tier):
     full_hosts = ['program', 'member', 'listener', 'fcgi'] + (['program_n'] if tier != 'quick' else [])
 
     def pairs(vals):
-        return [(a, b) for a in vals for b in vals if a is not b]
+        allp = [(a, b) for a in vals for b in vals if a is not b]
+        if tier != 'quick' or len(vals) <= 4:
+            return allp
+        # quick: every pair among the first four values; a further (boundary) value against absent and one other
+        keep = set(id(v) for v in vals[:4])
+        return [(a, b) for a, b in allp if (id(a) in keep and id(b) in keep)
+                or (id(a) not in keep and b in (vals[0], vals[2])) or (id(b) not in keep and a is vals[0])]
 
     for option, vals in sorted(PROGRAM_OPTIONS.items()):
         hosts = list(full_hosts)
@@ -456,6 +462,13 @@ BAD_OPTIONS = [
     ('fcgi', 'socket_mode', '99x'), ('fcgi', 'socket_owner', 'no-such-user-c15'), ('fcgi', 'socket_backlog', '0'),
     ('fcgi_tcp', 'socket_mode', '0700'), ('fcgi_tcp', 'socket_owner', 'nobody'),
     ('group', 'programs', 'a,nosuch'), ('group', 'priority', 'x'),
+    # just outside the range of a numeric option
+    ('program', 'exitcodes', '256'), ('program', 'exitcodes', '-1'), ('program', 'exitcodes', '0,256'),
+    ('program', 'umask', '778'), ('program', 'umask', '8'), ('program', 'stopsignal', '0'), ('program', 'stopsignal', '65'),
+    ('program', 'stopsignal', '32'), ('program', 'stopsignal', '-1'),
+    ('fcgi', 'socket_backlog', '65536'), ('fcgi', 'socket_backlog', '-1'), ('fcgi', 'socket_mode', '0778'),
+    ('fcgi_tcp', 'socket', 'tcp://localhost:0'), ('fcgi_tcp', 'socket', 'tcp://localhost:65536'),
+    ('listener', 'buffer_size', '-1'),
 ]
 
 
@@ -591,6 +604,16 @@ def update_scenarios_exhaustive(tier):
             g['events'] = evs
             out.append({'groups': by() + [g], 'added': ['n1'], 'args': [], 'corrupt': False,
                         'label': 'pool-type-and-subtype:%s:%s' % (fate, ','.join(evs))})
+    # first update meets a STOPPING process in a changed/removed group (refused, known finding); the
+    # child then exits and a second update must converge; meanwhile the refused pool stays subscribed
+    for kind in ('listener', 'program', 'group'):
+        for fate in ('change', 'remove'):
+            ms = [_m('t', 'stopping')] if kind != 'group' else [_m('t1', 'stopping'), _m('t2', 'running')]
+            g = _g('t', kind, fate, ms)
+            if kind == 'listener':
+                g['events'] = ['PROCESS_STATE', 'TICK_5']
+            out.append({'groups': by() + [g, _g('l2', 'listener', 'keep', [_m('l2', 'running')])], 'added': ['n1'], 'args': [],
+                        'corrupt': False, 'second_update': True, 'label': 'second-update:%s:%s' % (kind, fate)})
     # a listener pool whose events= line is only reordered is left alone
     for recipe in ('running', 'stopped'):
         for evs in (['PROCESS_COMMUNICATION', 'SUPERVISOR_STATE_CHANGE', 'EVENT'], ['TICK_5', 'PROCESS_LOG', 'PROCESS_STATE', 'TICK_60']):
@@ -645,7 +668,8 @@ def random_update_scenario(rng):
         pool = [g['name'] for g in groups] + added + ['zzz']
         args = [rng.choice(pool) for _ in range(rng.choice([1, 1, 2, 3]))]
     return {'groups': groups, 'added': added, 'args': args, 'corrupt': rng.random() < 0.05, 'label': 'random',
-            'two_step': bool(added) and rng.random() < 0.3}
+            'two_step': bool(added) and rng.random() < 0.3,
+            'second_update': any(m['recipe'] == 'stopping' for g in groups for m in g['members']) and rng.random() < 0.6}
 
 
 # ------------------------------------------------ %-format corruptions of expanded options
@@ -765,6 +789,8 @@ def reread_sequences(tier):
                     continue
                 if quick and h != hosts[0] and option not in LOGFILE_OPTIONS:
                     continue
+                if quick:
+                    vals = vals[:4]         # (boundary values are in the single-option sweep)
                 for (t1, k1) in vals:
                     for (t2, k2) in vals:
                         if t1 is t2:
@@ -832,6 +858,18 @@ def broken_sequences(base):
         ('include-without-files', g1 + '[include]\n', '![include] without files'),
         ('format-type-mismatch', g1 + '[program:q]\ncommand=/bin/cat %(program_name)d\n', '!%d of a string'),
         ('format-unknown-name', g1 + '[program:q]\ncommand=/bin/cat %(nosuch)s\n', '!unknown expansion'),
+        ('rpcinterface-module-not-importable', g1 + '[rpcinterface:x]\nsupervisor.rpcinterface_factory=nosuch_module_c15:make\n',
+         '!rpcinterface factory module cannot be imported'),
+        ('rpcinterface-attribute-missing', g1 + '[rpcinterface:x]\nsupervisor.rpcinterface_factory=supervisor.rpcinterface:no_such_factory\n',
+         '!rpcinterface factory names a missing attribute of an importable module'),
+        ('rpcinterface-nested-attribute-missing', g1 + '[rpcinterface:x]\nsupervisor.rpcinterface_factory=supervisor.rpcinterface:make_main_rpcinterface.nosuch\n',
+         '!rpcinterface factory names a missing nested attribute'),
+        ('rpcinterface-factory-key-absent', g1 + '[rpcinterface:x]\nother=1\n', '!rpcinterface section without factory key'),
+        ('rpcinterface-empty-value', g1 + '[rpcinterface:x]\nsupervisor.rpcinterface_factory=\n', '!rpcinterface factory empty'),
+        ('rpcinterface-no-colon', g1 + '[rpcinterface:x]\nsupervisor.rpcinterface_factory=supervisor.rpcinterface\n',
+         'rpcinterface factory without attribute part'),
+        ('rpcinterface-valid-second', g1 + '[rpcinterface:y]\nsupervisor.rpcinterface_factory=supervisor.rpcinterface:make_main_rpcinterface\n',
+         'a second, valid rpcinterface section'),
         ('unknown-key-bad-value', g1 + '[program:q]\ncommand=/bin/cat\nnosuchkey=%(x)d\n', 'unknown key (ignored by the reader)'),
         ('unknown-section', g1 + '[nosuchsection]\nkey=%(x)d\n', 'unknown section (ignored by the reader)'),
         ('unterminated-header', g1 + '[program:q\ncommand=/bin/cat\n', 'unterminated section header'),
